@@ -433,3 +433,157 @@ Theorem C05_ex_extension_leaks_tags :
 Proof. exact (@ex_extension_leaks_tags). Qed.
 Print Assumptions C05_ex_extension_leaks_tags.
 
+Require Import WnV.Proofs.DepInv.
+(* ---- dependency links are resolved exactly, whatever the order of adds and removes (Proofs/DepInv.v): [deps_resolved d] = the provider_rowid of every lexicon_dependencies row is the rowid of the installed lexicon with the row's provider id and version, and NULL when there is none; it is preserved, together with the uniqueness of (id, version) among lexicons and the row shape, by add_lexical_resource (back-fill of existing links when the provider arrives, resolution of the new lexicon's own links) and by remove (SET NULL on the links to a removed provider, CASCADE on the links of a removed dependent); so which lexicon a dependency points to depends only on which lexicons are installed. Histories evaluated on concrete resources: NULL -> rowid -> NULL -> new rowid *)
+Theorem C05_insert_lexicon_deps_resolved :
+  forall (lexicon : val) (d d' : db) (lexid extid : Z),
+         lexicons_unique d ->
+         deps_wf d ->
+         deps_resolved d ->
+         _insert_lexicon lexicon d = Ok (d', lexid, extid) ->
+         lexicons_unique d' /\ deps_wf d' /\ deps_resolved d'.
+Proof. exact (@insert_lexicon_deps_resolved). Qed.
+Print Assumptions C05_insert_lexicon_deps_resolved.
+
+Theorem C05_add_one_lexicon_deps_resolved :
+  forall (nt : normtable) (L : val) (d d' : db),
+         dep_inv d -> add_one_lexicon nt L d = Ok d' -> dep_inv d'.
+Proof. exact (@add_one_lexicon_deps_resolved). Qed.
+Print Assumptions C05_add_one_lexicon_deps_resolved.
+
+Theorem C05_add_lexical_resource_deps_resolved :
+  forall (d : db) (r : val) (nt : normtable) (d' : db),
+         lexicons_unique d ->
+         deps_wf d ->
+         deps_resolved d ->
+         add_lexical_resource d r nt = Ok d' -> lexicons_unique d' /\ deps_wf d' /\ deps_resolved d'.
+Proof. exact (@add_lexical_resource_deps_resolved). Qed.
+Print Assumptions C05_add_lexical_resource_deps_resolved.
+
+Theorem C05_insert_lexicon_not_installed :
+  forall (lexicon : val) (d d' : db) (lexid extid : Z),
+         _insert_lexicon lexicon d = Ok (d', lexid, extid) ->
+         exists idc vc : cell,
+           preq lexicon "id" = Ok idc /\
+           preq lexicon "version" = Ok vc /\ LEXICON_QUERY d idc vc = CNull.
+Proof. exact (@insert_lexicon_not_installed). Qed.
+Print Assumptions C05_insert_lexicon_not_installed.
+
+Theorem C05_remove_deps_resolved :
+  forall (d : db) (spec : str) (d' : db),
+         lexicons_unique d ->
+         deps_wf d ->
+         deps_resolved d ->
+         remove d spec = Ok d' -> lexicons_unique d' /\ deps_wf d' /\ deps_resolved d'.
+Proof. exact (@remove_deps_resolved). Qed.
+Print Assumptions C05_remove_deps_resolved.
+
+Theorem C05_deps_resolved_iff :
+  forall (d : db) (r : row),
+         lexicons_unique d ->
+         deps_resolved d ->
+         In r (get_table d "lexicon_dependencies") ->
+         (forall k : Z,
+          col "lexicon_dependencies" "provider_rowid" r = CInt k <->
+          (exists l : row,
+             In l (get_table d "lexicons") /\
+             rowid_of l = k /\
+             lex_match (col "lexicon_dependencies" "provider_id" r)
+               (col "lexicon_dependencies" "provider_version" r) l = true)) /\
+         (col "lexicon_dependencies" "provider_rowid" r = CNull <->
+          (forall l : row,
+           In l (get_table d "lexicons") ->
+           lex_match (col "lexicon_dependencies" "provider_id" r)
+             (col "lexicon_dependencies" "provider_version" r) l = false)).
+Proof. exact (@deps_resolved_iff). Qed.
+Print Assumptions C05_deps_resolved_iff.
+
+Theorem C05_delete_needs_lexicons_unique :
+  (forall r : row,
+          In r (get_table ex_dup "lexicon_dependencies") ->
+          col "lexicon_dependencies" "provider_rowid" r =
+          resolve ex_dup (col "lexicon_dependencies" "provider_id" r)
+            (col "lexicon_dependencies" "provider_version" r)) /\
+         match delete_row delete_fuel ex_dup "lexicons" 1 with
+         | Ok d' =>
+             prov_links d' = [(CInt 9, CNull)] /\ resolve d' (CText (k "a")) (CText (k "v")) = CInt 2
+         | _ => False
+         end.
+Proof. exact (@delete_needs_lexicons_unique). Qed.
+Print Assumptions C05_delete_needs_lexicons_unique.
+
+Theorem C05_ex_db2_dep_inv :
+  lexicons_unique ex_db2 /\ deps_wf ex_db2 /\ deps_resolved ex_db2.
+Proof. exact (@ex_db2_dep_inv). Qed.
+Print Assumptions C05_ex_db2_dep_inv.
+
+Theorem C05_ex_db2_link :
+  map
+           (fun r : row =>
+            (col "lexicon_dependencies" "dependent_rowid" r,
+             col "lexicon_dependencies" "provider_id" r,
+             col "lexicon_dependencies" "provider_version" r,
+             col "lexicon_dependencies" "provider_rowid" r))
+           (get_table ex_db2 "lexicon_dependencies") =
+         [(CInt 2, CText (k "ba"), CText (k "1"), CInt 1)] /\
+         resolve ex_db2 (CText (k "ba")) (CText (k "1")) = CInt 1 /\
+         resolve ex_db2 (CText (k "zz")) (CText (k "1")) = CNull.
+Proof. exact (@ex_db2_link). Qed.
+Print Assumptions C05_ex_db2_link.
+
+Theorem C05_history_dependent_then_provider :
+  match add_lexical_resource ex_db ex_dependent [] with
+         | Ok d1 =>
+             lexicon_ids d1 = [(1, CText (k "bb"))] /\
+             prov_links d1 = [(CInt 1, CNull)] /\
+             match add_lexical_resource d1 ex_provider [] with
+             | Ok d2 =>
+                 lexicon_ids d2 = [(1, CText (k "bb")); (2, CText (k "ba"))] /\
+                 prov_links d2 = [(CInt 1, CInt 2)]
+             | _ => False
+             end
+         | _ => False
+         end.
+Proof. exact (@history_dependent_then_provider). Qed.
+Print Assumptions C05_history_dependent_then_provider.
+
+Theorem C05_history_provider_dependent_remove :
+  match add_lexical_resource ex_db ex_provider [] with
+         | Ok d1 =>
+             prov_links d1 = [] /\
+             match add_lexical_resource d1 ex_dependent [] with
+             | Ok d2 =>
+                 lexicon_ids d2 = [(1, CText (k "ba")); (2, CText (k "bb"))] /\
+                 prov_links d2 = [(CInt 2, CInt 1)] /\
+                 match remove d2 (k "ba:1") with
+                 | Ok d3 =>
+                     lexicon_ids d3 = [(2, CText (k "bb"))] /\
+                     prov_links d3 = [(CInt 2, CNull)] /\
+                     match add_lexical_resource d3 ex_provider [] with
+                     | Ok d4 =>
+                         lexicon_ids d4 = [(2, CText (k "bb")); (3, CText (k "ba"))] /\
+                         prov_links d4 = [(CInt 2, CInt 3)] /\
+                         match remove d4 (k "bb") with
+                         | Ok d5 => lexicon_ids d5 = [(3, CText (k "ba"))] /\ prov_links d5 = []
+                         | _ => False
+                         end
+                     | _ => False
+                     end
+                 | _ => False
+                 end
+             | _ => False
+             end
+         | _ => False
+         end.
+Proof. exact (@history_provider_dependent_remove). Qed.
+Print Assumptions C05_history_provider_dependent_remove.
+
+Theorem C05_history_invariant :
+  forall d1 d2 d3 : db,
+         add_lexical_resource ex_db ex_provider [] = Ok d1 ->
+         add_lexical_resource d1 ex_dependent [] = Ok d2 ->
+         remove d2 (k "ba:1") = Ok d3 ->
+         (lexicons_unique d2 /\ deps_wf d2 /\ deps_resolved d2) /\
+         lexicons_unique d3 /\ deps_wf d3 /\ deps_resolved d3.
+Proof. exact (@history_invariant). Qed.
+Print Assumptions C05_history_invariant.
